@@ -37,6 +37,11 @@ fn apply<B: ByteOrder + SwitchEndian>(buf: &mut Buffer<B>, o: &Value) -> (bool, 
             buf.read_string::<Utf8LengthPrefixedDecoder>(None)
                 .map_or((false, json!([])), |s| (true, msb(s.as_bytes())))
         }
+        "u2str" => {
+            // value: the code points of the decoded (stripped) text
+            buf.read_string::<Unreal2StringDecoder>(None)
+                .map_or((false, json!([])), |s| (true, json!(s.chars().map(|c| c as u64).collect::<Vec<_>>())))
+        }
         "utf16" => {
             let r = if o["o"] == "LE" {
                 buf.read_string::<Utf16Decoder<LittleEndian>>(None)
@@ -132,7 +137,16 @@ pub fn replay_buffer(lines: &[Value], rep: &mut Report) {
             if obs.panic.is_some() {
                 break;
             }
-            if rok && obs.ok && rcur == obs.cur && r["val"] == obs.val {
+            let val_eq = if o["op"] == "u2str" {
+                // 65533 in the model = a Latin-1 byte above 7F (code page mapping not modelled): any one character
+                match (r["val"].as_array(), obs.val.as_array()) {
+                    (Some(a), Some(b)) => a.len() == b.len() && a.iter().zip(b).all(|(x, y)| x == y || x.as_u64() == Some(65533)),
+                    _ => false,
+                }
+            } else {
+                r["val"] == obs.val
+            };
+            if rok && obs.ok && rcur == obs.cur && val_eq {
                 matched = true;
             }
             if !rok && !obs.ok {
